@@ -319,6 +319,52 @@ func nonASCIICaseStage(props []string) (fails []*Case, calls int) {
 	return fails, calls
 }
 
+// edgeJunkStage: an accepted single word with another character glued to one of its edges (a grave
+// accent, a combining mark, a letter) is another word; unless that word is itself in the CSS word
+// dictionary the handler must reject it. (White space is trimmed from the edges, nothing else is.)
+func edgeJunkStage(props []string, free []string) (fails []*Case, calls int) {
+	allJunk := []string{"`", "\u030a", "\u030c", "\u0809", "\u0260", "I", "J", "L", "M", "i", "\u00e0", "@"}
+	openSpace := map[string]bool{}
+	for _, p := range free {
+		openSpace[p] = true
+	}
+	pool := append(append([]string{}, cssTokens...), "red", "left", "serif", "none", "auto", "block", "1px", "bold", "initial")
+	for _, prop := range props {
+		h := css.GetDefaultHandler(prop)
+		junk := allJunk
+		if openSpace[prop] {
+			// the handler takes author-defined names (font families, animation or grid-area names):
+			// letters and non-ASCII characters make other names, only a non-name character is junk
+			junk = []string{"`", "@"}
+		}
+		n := 0
+	seeds:
+		for _, seed := range pool {
+			calls++
+			if seed == "" || strings.ContainsAny(seed, " ,/()'\"") || !h(seed) {
+				continue
+			}
+			for _, j := range junk {
+				for _, v := range []string{j + seed, seed + j, j + seed + j} {
+					calls++
+					if cssWords[asciiLower(v)] || cssNumber.MatchString(v) {
+						continue
+					}
+					if h(v) {
+						fails = append(fails, &Case{Prop: "C18", Kind: "edge-junk", Strs: []BStr{BStr(prop), BStr(v)},
+							Clause: "C18: the default handler for " + q(prop) + " accepts " + q(v) + ": an accepted word with another character glued to its edge"})
+						break seeds
+					}
+				}
+			}
+			if n++; n >= 4 {
+				break
+			}
+		}
+	}
+	return fails, calls
+}
+
 // positionStage: two keywords of the same axis are not a position.
 func positionStage() (fails []*Case, calls int) {
 	for _, prop := range []string{"background-position", "object-position", "perspective-origin", "transform-origin"} {
